@@ -18,12 +18,16 @@ P = {
          "Every sub-score key of the environmental equation is executed with all CDP/TD pairs; thorough executes the entire 141 M-vector domain. Mismatches are attributed to the recorded finding only for listed keys with the recorded value.", "4/C05", TB),
  "C06": (True, "runtime monitor: rider on the exhaustive C01-C05 enumerations; per-observation grid/range/format/band oracle on integer tenths",
          "Every (score, severity) pair produced by the exhaustive enumerations of all levels and versions is checked; evidence lists which tenths and band edges were actually observed per level.", "4/C06", TB),
- "C07": (False, "", "", "4/C07", TB),
- "C08": (False, "", "", "4/C08", TB),
+ "C07": (True, "runtime monitor: string-language differential - every workload string at all three decoders against a reference recogniser written from the property text; workload = all valid vectors' covering family, every single-character edit at every position of seed vectors, closed token-edit catalogue, double edits, token-level exhaustive enumeration, random bytes",
+         "Acceptance is a property of an unbounded string language; the monitor decides the strings it runs (millions per run, the complete 1-edit neighbourhood of hundreds of seed vectors). No claim beyond those.", "4/C07", TB),
+ "C08": (True, "runtime monitor: string-language differential - every workload string at all three decoders against a reference recogniser written from the property text; workload = all valid vectors' covering family, every single-character edit at every position of seed vectors, closed token-edit catalogue, double edits, token-level exhaustive enumeration, random bytes",
+         "Same as C07 for the canonical v2 language (group completeness, order, level).", "4/C08", TB),
  "C09": (False, "", "", "4/C09", TB),
  "C10": (False, "", "", "4/C10", TB),
- "C11": (False, "", "", "4/C11", TB),
- "C12": (False, "", "", "4/C12", TB),
+ "C11": (True, "runtime monitor: errors.Is census over all 11 sentinels on every rejected workload string at all six decoders, against a reference defect classifier; sharp single-classified-edit catalogue per metric and position",
+         "Every rejection observed must match exactly one sentinel, inside the set of defects the classifier finds; single-defect inputs (about 1 M per quick run) must report exactly their class. Evidence holds the class x sentinel matrix.", "4/C11", TB),
+ "C12": (True, "runtime monitor: recover()-wrapped calls + process-crash detection over hostile inputs, nil receivers, fresh objects, objects left behind by failed decodes, single-field resets; assertion oracle on (object, error) shape and on error/zero-score of invalid objects",
+         "All workload and hostile strings at all six decoders through both receivers; the observer sweep covers every observer method on every object state the quantifier names. One genuine defect found and fixed (nil-receiver IsEmpty).", "4/C12", TB),
  "C13": (True, "runtime monitor: relational oracle between two scores of the same decoded vector over the exhaustive domains",
          "Relations (ND-neutrality, TD:N => 0, temporal <= base) are checked on every vector of the finite domains (v2 TD:N on every sub-score key in quick, all 28 M in thorough); no spec oracle involved.", "4/C13", TB),
  "C14": (False, "", "", "4/C14", TB),
@@ -55,7 +59,7 @@ m = {
  "version": 1,
  "setup_cmd": "./setup.sh",
  "hooks": {"guard": "verif", "enable": "go build -tags verif (no hook is needed: every property is observable through the exported API; the tag is reserved and passed by ./check)",
-           "baseline_off_cmd": "cd /repo && GOFLAGS=-mod=mod GOPROXY=off GOSUMDB=off GOTOOLCHAIN=local go test -vet=off -count=1 ./...",
+           "baseline_off_cmd": "cd /repo && GOPROXY=off GOSUMDB=off GOTOOLCHAIN=local go test -vet=off -count=1 ./...",
            "source_commits": [], "add_only": True},
  "engines": [{"name": "mon", "path": "harness/cmd/mon", "serves_properties": [c["property_id"] for c in checks],
               "kind_free_text": "Go monitor binary rebuilt by ./check from /repo's working tree (replace directive); runs the real library under generated workloads and compares every observation at the client boundary with reference models / relational oracles / the race detector"}],
